@@ -304,46 +304,46 @@ def srcStructTy (gs : List Field) : Ty := .struct (gs.map imgField) [] none {}
 /-- `Validate()` of the Go type generated from a flat JSON Schema object reports exactly the violations of the SOURCE
     keywords: same violations, same paths, same order -/
 theorem C08_jsonschema_validate_end_to_end_partial
-    (pkg : String) (defs : Defs) (fuel : Nat) (root : String) (S Sg : Schemas) (s : JS) (gs : List Field)
-    (hS : frontEnd pkg defs fuel (refTo root) = .ok S)
-    (hroot : lookupDef defs root = some s) (hobj : isObjectNode s = true) (hsorted : sortedKeys (propsOf s) = true)
+    (pkg : String) (defs : Defs) (fuel : Nat) (root name : String) (S Sg : Schemas) (s : JS) (gs : List Field)
+    (hS : frontEnd pkg defs fuel (refTo root) = .ok S) (hdecl : (Schemas.locateObject S pkg name).isSome = true)
+    (hroot : lookupDef defs name = some s) (hobj : isObjectNode s = true) (hsorted : sortedKeys (propsOf s) = true)
     (hflat : rawFields s.attrs.required (propsOf s) = some gs)
     (hP : Plain S = true) (hrun : runChain goChain S = .ok Sg) (hs : noConstrainedAlias Sg = true)
     (n : Nat) (v : GoVal) (lc ls : List Viol)
-    (hc : goValidate n Sg pkg root v = .ok lc)
+    (hc : goValidate n Sg pkg name v = .ok lc)
     (hsp : violations n [] (srcStructTy gs) v = .ok ls) : lc = ls := by
-  obtain ⟨o, fs, ho, hty, _, _, hbuilt⟩ := keeps_object pkg defs fuel root S hS hroot hobj
+  obtain ⟨o, fs, ho, hty, _, _, hbuilt⟩ := keeps_object pkg defs fuel root name S hS hdecl hroot hobj
   rw [sortFields_id hsorted hbuilt] at hty
-  obtain ⟨hloc, hty'⟩ := chain_struct goChain (by decide) S Sg hP hrun pkg root o ho fs [] none Cog.Front.JsonSchema.m0 hty
+  obtain ⟨hloc, hty'⟩ := chain_struct goChain (by decide) S Sg hP hrun pkg name o ho fs [] none Cog.Front.JsonSchema.m0 hty
   have hsame := vFields_same (fieldsBuilt_same hbuilt hflat)
-  have := violations_flat Sg pkg root _ _ _ [] none Cog.Front.JsonSchema.m0 hloc hty' hsame n v
+  have := violations_flat Sg pkg name _ _ _ [] none Cog.Front.JsonSchema.m0 hloc hty' hsame n v
   rw [srcStructTy] at hsp
   rw [← this] at hsp
-  exact C08_validate_eq_partial Sg hs n pkg root v lc ls hc hsp
+  exact C08_validate_eq_partial Sg hs n pkg name v lc ls hc hsp
 
 /-- a value violating none of the source keywords is accepted … -/
 theorem C08_jsonschema_validate_accepts_valid_partial
-    (pkg : String) (defs : Defs) (fuel : Nat) (root : String) (S Sg : Schemas) (s : JS) (gs : List Field)
-    (hS : frontEnd pkg defs fuel (refTo root) = .ok S)
-    (hroot : lookupDef defs root = some s) (hobj : isObjectNode s = true) (hsorted : sortedKeys (propsOf s) = true)
+    (pkg : String) (defs : Defs) (fuel : Nat) (root name : String) (S Sg : Schemas) (s : JS) (gs : List Field)
+    (hS : frontEnd pkg defs fuel (refTo root) = .ok S) (hdecl : (Schemas.locateObject S pkg name).isSome = true)
+    (hroot : lookupDef defs name = some s) (hobj : isObjectNode s = true) (hsorted : sortedKeys (propsOf s) = true)
     (hflat : rawFields s.attrs.required (propsOf s) = some gs)
     (hP : Plain S = true) (hrun : runChain goChain S = .ok Sg) (hs : noConstrainedAlias Sg = true)
     (n : Nat) (v : GoVal) (lc : List Viol)
-    (hc : goValidate n Sg pkg root v = .ok lc)
+    (hc : goValidate n Sg pkg name v = .ok lc)
     (hsp : violations n [] (srcStructTy gs) v = .ok []) : lc = [] :=
-  C08_jsonschema_validate_end_to_end_partial pkg defs fuel root S Sg s gs hS hroot hobj hsorted hflat hP hrun hs n v lc [] hc hsp
+  C08_jsonschema_validate_end_to_end_partial pkg defs fuel root name S Sg s gs hS hdecl hroot hobj hsorted hflat hP hrun hs n v lc [] hc hsp
 
 /-- … and a value violating exactly one of them gets exactly that error, at the member's path -/
 theorem C08_jsonschema_validate_single_fault_partial
-    (pkg : String) (defs : Defs) (fuel : Nat) (root : String) (S Sg : Schemas) (s : JS) (gs : List Field)
-    (hS : frontEnd pkg defs fuel (refTo root) = .ok S)
-    (hroot : lookupDef defs root = some s) (hobj : isObjectNode s = true) (hsorted : sortedKeys (propsOf s) = true)
+    (pkg : String) (defs : Defs) (fuel : Nat) (root name : String) (S Sg : Schemas) (s : JS) (gs : List Field)
+    (hS : frontEnd pkg defs fuel (refTo root) = .ok S) (hdecl : (Schemas.locateObject S pkg name).isSome = true)
+    (hroot : lookupDef defs name = some s) (hobj : isObjectNode s = true) (hsorted : sortedKeys (propsOf s) = true)
     (hflat : rawFields s.attrs.required (propsOf s) = some gs)
     (hP : Plain S = true) (hrun : runChain goChain S = .ok Sg) (hs : noConstrainedAlias Sg = true)
     (n : Nat) (v : GoVal) (lc : List Viol) (x : Viol)
-    (hc : goValidate n Sg pkg root v = .ok lc)
+    (hc : goValidate n Sg pkg name v = .ok lc)
     (hsp : violations n [] (srcStructTy gs) v = .ok [x]) : lc = [x] :=
-  C08_jsonschema_validate_end_to_end_partial pkg defs fuel root S Sg s gs hS hroot hobj hsorted hflat hP hrun hs n v lc [x] hc hsp
+  C08_jsonschema_validate_end_to_end_partial pkg defs fuel root name S Sg s gs hS hdecl hroot hobj hsorted hflat hP hrun hs n v lc [x] hc hsp
 
 /-! ### non-vacuity (length keywords: their bounds are Go `int`s; float64 bounds are read through `parseGFloat`, which the
     kernel does not evaluate — the lab instances of stream c01-front cover them) -/
